@@ -25,6 +25,8 @@ func init() {
 		Explain: "Static structural necessary conditions of 'all members agree on a valid routing table' — the small structural part; convergence after join/leave sequences, liveness/distinctness of backups and the load-factor bound (inside buraksezer/consistent) are NOT decided: " +
 			"(coordinator-only) the table is computed and pushed only on the true edge of IsCoordinator() and after the member-count quorum check; " +
 			"(verify-before-apply) a received table replaces the owners only after verifyRoutingTable returned nil, which checks that the sender is this member's coordinator and that the table has exactly PartitionCount entries with valid ids and owners; " +
+			"(defaults-only-when-unset) Config.Sanitize replaces LoadFactor, PartitionCount, ReplicaCount and the quorums by their defaults only on the edge where the field is zero; " +
+			"(backup-owners-pruned) distributeBackups returns a list of backup owners only after the loop that removes departed and re-joined members, except nil and the list built when there was no previous owner; " +
 			"(coordinator-is-oldest) members are sorted by birthdate ascending and the coordinator is element 0; " +
 			"(partition-formula) every partition id computed from a key is HKey(DMap name, key) modulo the partition count, and every HKey call passes (DMap name, key) in that order; " +
 			"(owner-index) the primary owner is the last element of the owners list on members (Partition.Owner), in the cluster client (clientByPartID) and when the coordinator recomputes the list (ring owner appended last, previous owners prepended); " +
@@ -36,6 +38,8 @@ func init() {
 			c13PartitionFormula(r)
 			c13OwnerIndex(r)
 			c13RingFollowsMembership(r)
+			c13DefaultsOnlyWhenUnset(r)
+			c13BackupOwnersPruned(r)
 		},
 	})
 }
